@@ -245,7 +245,7 @@ theorem abs_getRow {t : Table} {n : Nat} (hr : t.Rect n) (i : Int) : t.getRow i 
       have hj := pyIdx_lt hp
       have hrow : (abs t).rows.getD j [] = t.row j := by
         simp [abs_rows hr hne, List.getD_eq_getElem?_getD, hj]
-      simp only [hrow, abs_cols]
+      simp only [hrow]
       rw [zip_cols_row]
       unfold getRow
       apply mapE_of_ok
@@ -288,7 +288,7 @@ theorem abs_getColE {t : Table} {n : Nat} (hr : t.Rect n) (k : String) : t.getCo
 
 theorem abs_iter (t : Table) : t.iter = (abs t).iter := rfl
 
-theorem abs_applyFn {t : Table} {n : Nat} (hr : t.Rect n) (f : Fn) : t.applyFn f = (abs t).applyFn f := by
+theorem abs_applyFn (t : Table) (f : Fn) : t.applyFn f = (abs t).applyFn f := by
   unfold applyFn Recs.applyFn
   simp only [abs, rows, mapE_map, get?_row]
 
@@ -366,7 +366,7 @@ theorem abs_getTuple {t : Table} {n : Nat} (hr : t.Rect n) (ks : List String) :
       congr 1
       apply List.map_congr_left
       intro i _
-      simp only [Function.comp, List.map_map]
+      simp only [Function.comp]
       apply List.map_congr_left
       intro k' _
       simp only [Function.comp]
